@@ -482,7 +482,7 @@ pub fn strategy() -> impl Strategy<Value = Case> {
 pub fn run(ctx: &Ctx) -> Report {
     let mut rep = Report::new();
     let e = env(ctx, &mut rep);
-    pt_run(ctx, "c14", ctx.n(10500, 210000), strategy, |c| check(&e, c), &mut rep);
+    pt_run(ctx, "c14", ctx.n(10500, 1000000), strategy, |c| check(&e, c), &mut rep);
     // deterministic grid: every layout x every builtin x every usage variant (the generated cases hit
     // each of the dynamic layout's ten builtins only a few times)
     let mut grid = Vec::new();
